@@ -39,8 +39,9 @@ Proof.
   intros beh st e x y Hc Hx. cbn [step]. unfold optional_default_attribute.
   assert (H : forall st', ts_cur st' = Some (x, y) -> ts_size st' = ts_size st ->
                           ts_cur (fst (write_element beh st' e)) = None).
-  { intros st' Hc' Hs'. unfold write_element. cbn [fst]. rewrite advance_cur.
-    cbn [ts_cur ts_size set_last]. rewrite Hc', Hs', Hx, N.eqb_refl. reflexivity. }
+  { intros st' Hc' Hs'. unfold write_element. cbn [fst]. unfold advance_cursor.
+    cbn [ts_cur ts_size set_last]. rewrite Hc', Hs', Hx, N.eqb_refl.
+    destruct (is_control_glyph (eg e)); reflexivity. }
   split.
   - destruct (ts_last st);
       match goal with |- context[write_element beh ?s e] =>
@@ -49,6 +50,21 @@ Proof.
   - apply H; [exact Hc|reflexivity].
 Qed.
 Print Assumptions C08_forgets_last_column.
+
+(* ... a control character (line feed, carriage return, tab, backspace ...) ... *)
+Theorem C08_forgets_after_control_character :
+  forall beh st e, is_control_glyph (eg e) = true ->
+    ts_cur (fst (step beh st (WElem e))) = None /\ ts_cur (fst (step beh st (WRaw e))) = None.
+Proof.
+  intros beh st e Hc. cbn [step]. unfold optional_default_attribute.
+  assert (H : forall st', ts_cur (fst (write_element beh st' e)) = None).
+  { intros st'. unfold write_element. cbn [fst]. apply advance_cur_control. exact Hc. }
+  split; [|apply H].
+  destruct (ts_last st);
+    match goal with |- context[write_element beh ?s e] =>
+      specialize (H s); destruct (write_element beh s e) eqn:E end; cbn [fst] in *; exact H.
+Qed.
+Print Assumptions C08_forgets_after_control_character.
 
 (* ... a size change (current and saved position) ... *)
 Theorem C08_forgets_on_resize :
